@@ -8,13 +8,15 @@
 //
 // Script steps (any sub-list of a script is a valid script):
 //
-//	cfg plain|state <cmp> <retry> <ncb> [<pattern> [<Dms>]]   first line; cmp 0 nil,1 ==,2 parity; pattern over d/s
+//	cfg plain|state <cmp> <retry> <ncb> [<pattern> [<Dms> [<ctor>]]]   first line; cmp 0 nil,1 ==,2 parity; pattern over d/s;
+//	                    ctor 0 New…, 1 New…WithLogger, 2 NewStateRoutineContainerVT, 3 …WithLoggerVT (2, 3: state only, cmp = 1)
 //	setctx <c> <r>      SetContext(root c, restart r); c = 0 is the nil context
 //	clearctx            ClearContext()
 //	setroutine <f>      SetRoutine(function f), f = 0 is nil            (plain only)
 //	restart             RestartRoutine()
 //	setstate <v> | setsr <f> | swap <k|nil> | getstate                  (state only)
-//	waitexited <r>      WaitExited(own ctx, returnIfNotRunning r, nil) in its own goroutine
+//	waitexited <r> [errch]   WaitExited(own ctx, returnIfNotRunning r, nil | an error channel) in its own goroutine
+//	errch send <i> <e> | errch close <i>   send error e (0 = context.Canceled) on / close the error channel of the i-th waitexited step
 //	waitexitedc <r>     the same with a context that is already cancelled when WaitExited is called
 //	cancelw <i>         cancel the context of the i-th waitexited step
 //	cancelroot <c>      cancel root context c
@@ -35,6 +37,7 @@ import (
 	"context"
 	"errors"
 	"fmt"
+	"io"
 	"math/rand"
 	"strconv"
 	"strings"
@@ -43,6 +46,7 @@ import (
 
 	"github.com/aperturerobotics/util/backoff"
 	rt "github.com/aperturerobotics/util/routine"
+	"github.com/sirupsen/logrus"
 
 	"verifharness/comp"
 	"verifharness/hist"
@@ -72,6 +76,58 @@ func b2i(b bool) int {
 		return 1
 	}
 	return 0
+}
+
+
+// stateAPI is what the harness uses of a StateRoutineContainer; two instantiations are driven:
+// StateRoutineContainer[int] (compare function given) and StateRoutineContainer[vint] (the VT constructors).
+type stateAPI interface {
+	SetContext(ctx context.Context, restart bool) bool
+	ClearContext() bool
+	RestartRoutine() bool
+	SetState(v int) (<-chan struct{}, bool, bool, bool)
+	SetStateRoutine(fn rt.StateRoutine[int]) (<-chan struct{}, bool, bool)
+	SwapValue(cb func(int) int) (int, <-chan struct{}, bool, bool, bool)
+	GetState() int
+	WaitExited(ctx context.Context, returnIfNotRunning bool, errCh <-chan error) error
+}
+
+type intSC struct {
+	*rt.StateRoutineContainer[int]
+}
+
+// vint is an int with the EqualVT method the VT constructors ask for (equality).
+type vint int
+
+func (a vint) EqualVT(b vint) bool { return a == b }
+
+type vtSC struct {
+	c *rt.StateRoutineContainer[vint]
+}
+
+func (s vtSC) SetContext(ctx context.Context, restart bool) bool { return s.c.SetContext(ctx, restart) }
+func (s vtSC) ClearContext() bool                                { return s.c.ClearContext() }
+func (s vtSC) RestartRoutine() bool                              { return s.c.RestartRoutine() }
+func (s vtSC) SetState(v int) (<-chan struct{}, bool, bool, bool) {
+	return s.c.SetState(vint(v))
+}
+func (s vtSC) SetStateRoutine(fn rt.StateRoutine[int]) (<-chan struct{}, bool, bool) {
+	if fn == nil {
+		return s.c.SetStateRoutine(nil)
+	}
+	return s.c.SetStateRoutine(func(ctx context.Context, st vint) error { return fn(ctx, int(st)) })
+}
+func (s vtSC) SwapValue(cb func(int) int) (int, <-chan struct{}, bool, bool, bool) {
+	var f func(vint) vint
+	if cb != nil {
+		f = func(v vint) vint { return vint(cb(int(v))) }
+	}
+	next, ch, changed, reset, running := s.c.SwapValue(f)
+	return int(next), ch, changed, reset, running
+}
+func (s vtSC) GetState() int { return int(s.c.GetState()) }
+func (s vtSC) WaitExited(ctx context.Context, r bool, errCh <-chan error) error {
+	return s.c.WaitExited(ctx, r, errCh)
 }
 
 type inst struct {
@@ -131,7 +187,7 @@ type H struct {
 	tagSet comp.TagSet
 	state  bool
 	rc     *rt.RoutineContainer
-	sc     *rt.StateRoutineContainer[int]
+	sc     stateAPI
 
 	mu     sync.Mutex
 	insts  []*inst
@@ -448,6 +504,16 @@ func (c *counter) WaitZero(max time.Duration) bool {
 type wcall struct {
 	cancel context.CancelFunc
 	id     int
+	ech    chan error // error channel given to WaitExited (nil: none)
+	eshut  bool       // ech closed
+}
+
+// discardLogger is the logger given to the *WithLogger constructors (its exit callback logs every exit).
+func discardLogger() *logrus.Entry {
+	l := logrus.New()
+	l.SetOutput(io.Discard)
+	l.SetLevel(logrus.DebugLevel)
+	return logrus.NewEntry(l)
 }
 
 func exec(state bool) func(script []string, opt comp.Options) comp.Result {
@@ -459,7 +525,7 @@ func exec(state bool) func(script []string, opt comp.Options) comp.Result {
 		rng := rand.New(rand.NewSource(opt.Seed ^ 0x70e1))
 
 		// configuration
-		cmp, retry, ncb, pat := 0, false, 0, "s"
+		cmp, retry, ncb, pat, ctor := 0, false, 0, "s", 0
 		for _, step := range script {
 			f := strings.Fields(step)
 			if len(f) >= 5 && f[0] == "cfg" {
@@ -474,6 +540,9 @@ func exec(state bool) func(script []string, opt comp.Options) comp.Result {
 						h.d = time.Duration(ms) * time.Millisecond
 					}
 				}
+				if len(f) > 7 {
+					ctor, _ = strconv.Atoi(f[7])
+				}
 				break
 			}
 		}
@@ -482,6 +551,15 @@ func exec(state bool) func(script []string, opt comp.Options) comp.Result {
 		}
 		if ncb < 0 || ncb > 3 {
 			ncb = 0
+		}
+		if ctor < 0 || ctor > 3 || (!state && ctor > 1) {
+			ctor = 0
+		}
+		if ctor >= 2 {
+			cmp = 1 // the VT constructors compare with EqualVT: equality
+		}
+		if ctor != 0 {
+			h.tag(fmt.Sprintf("ctor-%d", ctor))
 		}
 		var opts []rt.Option
 		if retry {
@@ -501,7 +579,18 @@ func exec(state bool) func(script []string, opt comp.Options) comp.Result {
 			case 2:
 				cf = func(a, b int) bool { return a%2 == b%2 }
 			}
-			h.sc = rt.NewStateRoutineContainer[int](cf, opts...)
+			switch ctor {
+			case 1:
+				h.sc = intSC{rt.NewStateRoutineContainerWithLogger[int](cf, discardLogger(), opts...)}
+			case 2:
+				h.sc = vtSC{rt.NewStateRoutineContainerVT[vint](opts...)}
+			case 3:
+				h.sc = vtSC{rt.NewStateRoutineContainerWithLoggerVT[vint](discardLogger(), opts...)}
+			default:
+				h.sc = intSC{rt.NewStateRoutineContainer[int](cf, opts...)}
+			}
+		} else if ctor == 1 {
+			h.rc = rt.NewRoutineContainerWithLogger(discardLogger(), opts...)
 		} else {
 			h.rc = rt.NewRoutineContainer(opts...)
 		}
@@ -592,6 +681,12 @@ func exec(state bool) func(script []string, opt comp.Options) comp.Result {
 					r := len(f) > 1 && f[1] != "0"
 					ctx, cancel := context.WithCancel(context.Background())
 					w := &wcall{cancel: cancel}
+					var ech <-chan error
+					if len(f) > 2 && f[2] == "errch" {
+						w.ech = make(chan error, 1)
+						ech = w.ech
+						h.tag("errch")
+					}
 					w.id = log.Inv("waitexited %d", b2i(r))
 					wcalls = append(wcalls, w)
 					if f[0] == "waitexitedc" {
@@ -603,12 +698,39 @@ func exec(state bool) func(script []string, opt comp.Options) comp.Result {
 						defer actors.Done()
 						var err error
 						if state {
-							err = h.sc.WaitExited(ctx, r, nil)
+							err = h.sc.WaitExited(ctx, r, ech)
 						} else {
-							err = h.rc.WaitExited(ctx, r, nil)
+							err = h.rc.WaitExited(ctx, r, ech)
 						}
 						log.Ret(w.id, "wx %s", errCode(err))
 					}()
+				case "errch":
+					// errch send <i> <e> | errch close <i>: act on the error channel of the i-th waitexited step
+					if len(f) < 3 {
+						return
+					}
+					i, _ := strconv.Atoi(f[2])
+					if i < 0 || i >= len(wcalls) || wcalls[i].ech == nil || wcalls[i].eshut {
+						return
+					}
+					w := wcalls[i]
+					if f[1] == "close" {
+						log.Add("env errch %d 0", w.id)
+						w.eshut = true
+						close(w.ech)
+						h.tag("errch-closed")
+					} else if len(w.ech) == 0 {
+						e := 1
+						if len(f) > 3 {
+							e, _ = strconv.Atoi(f[3])
+						}
+						if e < 0 || e > 3 {
+							e = 1
+						}
+						log.Add("env errch %d %d", w.id, e)
+						w.ech <- errTab[e]
+						h.tag("errch-sent")
+					}
 				case "cancelw":
 					i, _ := strconv.Atoi(f[1])
 					if i >= 0 && i < len(wcalls) {
@@ -837,7 +959,14 @@ func gen(state bool) func(rng *rand.Rand, tier string) []string {
 		retry := rng.Intn(5) < 2
 		pats := []string{"s", "ds", "dds", "ds", "ddds"} // finite: a cancelled root context would otherwise be retried for ever
 		ds := []int{2, 8, 12}
-		out := []string{fmt.Sprintf("cfg %s %d %d %d %s %d", kind, cmp, b2i(retry), rng.Intn(3), pats[rng.Intn(len(pats))], ds[rng.Intn(len(ds))])}
+		ctor := 0 // which constructor builds the container
+		if rng.Intn(4) == 0 {
+			ctor = 1
+			if state {
+				ctor = 1 + rng.Intn(3)
+			}
+		}
+		out := []string{fmt.Sprintf("cfg %s %d %d %d %s %d %d", kind, cmp, b2i(retry), rng.Intn(3), pats[rng.Intn(len(pats))], ds[rng.Intn(len(ds))], ctor)}
 		multi := rng.Intn(3) == 0
 		risky := rng.Intn(3) == 0 // (D16 and D14 are fixed) may clear the routine inside an exit latency (D16) or move a failed routine to a new context (D14)
 		nwait, ngate := 0, 0
@@ -985,12 +1114,21 @@ func gen(state bool) func(rng *rand.Rand, tier string) []string {
 			case r < 64:
 				if rng.Intn(4) == 0 {
 					out = append(out, fmt.Sprintf("waitexitedc %d", rng.Intn(2)))
+				} else if rng.Intn(3) == 0 {
+					out = append(out, fmt.Sprintf("waitexited %d errch", rng.Intn(2)))
 				} else {
 					out = append(out, fmt.Sprintf("waitexited %d", rng.Intn(2)))
 				}
 				nwait++
 			case r < 67 && nwait > 0:
-				out = append(out, fmt.Sprintf("cancelw %d", rng.Intn(nwait)))
+				switch rng.Intn(4) {
+				case 0:
+					out = append(out, fmt.Sprintf("errch send %d %d", rng.Intn(nwait), rng.Intn(4)))
+				case 1:
+					out = append(out, fmt.Sprintf("errch close %d", rng.Intn(nwait)))
+				default:
+					out = append(out, fmt.Sprintf("cancelw %d", rng.Intn(nwait)))
+				}
 			case r < 72:
 				// hold a fresh execute goroutine at its start while it is superseded
 				out = append(out, "gate exec", supersede(), fmt.Sprintf("waitgate %d", ngate), supersede(), fmt.Sprintf("open %d", ngate))
@@ -1045,6 +1183,11 @@ func init() {
 			{"cfg plain 0 1 2 dds 3", "setctx 1 0", "setroutine 1", "settle", "exit old err 1", "advance", "exit old err 2", "advance", "exit old err 3", "advance", "restart", "settle", "exit old ok", "advance", "restart", "settle", "exit old err 1", "advance", "exit old ok", "quiesce"},
 			// WaitExited around exits and supersession
 			{"cfg plain 0 0 1", "waitexited 0", "waitexited 1", "setctx 1 0", "setroutine 1", "settle", "waitexited 0", "waitexited 1", "restart", "exit old err 2", "settle", "quiesce", "exit old err 3", "quiesce", "waitexited 0", "cancelw 0", "quiesce"},
+			// WaitExited with an error channel: an error sent on it / its closing ends the wait (routine.go:89-94)
+			{"cfg plain 0 0 0", "waitexited 0 errch", "waitexited 0 errch", "waitexited 0 errch", "settle", "errch send 0 2", "errch close 1", "settle", "quiesce", "setctx 1 0", "setroutine 1", "settle", "errch send 2 0", "settle", "exit old err 3", "quiesce"},
+			{"cfg plain 0 1 1 ds 4", "setctx 1 0", "setroutine 1", "settle", "waitexited 0 errch", "waitexited 1 errch", "settle", "errch send 0 3", "exit old err 1", "settle", "errch send 1 1", "advance", "errch close 0", "exit old ok", "quiesce"},
+			// NewRoutineContainerWithLogger: the logging exit callback sees a failure, a cancellation and a success
+			{"cfg plain 0 0 1 s 4 1", "setctx 1 0", "setroutine 1", "settle", "exit old err 2", "settle", "restart", "settle", "clearctx", "exit old ctx", "settle", "setctx 1 0", "settle", "exit old ok", "quiesce"},
 			// an instance held before its final section while it is superseded twice
 			{"cfg plain 0 1 1 d 3", "setctx 1 0", "setroutine 1", "settle", "gate hold", "exit old err 1", "waitgate 0", "restart", "setroutine 2", "open 0", "settle", "probe", "quiesce", "exit old ok", "quiesce"},
 			// D16 (fixed 3b21148): routine cleared and set again inside the exit latency of the first instance
@@ -1073,6 +1216,11 @@ func init() {
 			{"cfg state 1 0 0", "setctx 1 0", "setsr 1", "setstate 1", "settle", "setstate 0", "setstate 2", "settle", "probe", "quiesce", "exit old ctx", "exit old ok", "quiesce"},
 			// D4: a state change must wake WaitExited (the inner container's broadcast, under the inner lock)
 			{"cfg state 1 0 0", "setsr 1", "setctx 1 0", "setstate 1", "settle", "waitexited 1", "waitexited 0", "settle", "setstate 0", "settle", "quiesce", "exit old ctx", "quiesce", "cancelw 1", "quiesce"},
+			{"cfg state 1 0 0", "setsr 1", "setctx 1 0", "setstate 1", "settle", "waitexited 0 errch", "waitexited 0 errch", "settle", "errch close 0", "settle", "setstate 0", "errch send 1 2", "settle", "quiesce", "exit old ctx", "quiesce"},
+			// the other constructors of StateRoutineContainer: WithLogger, VT (compare = EqualVT), WithLoggerVT
+			{"cfg state 2 0 1 s 4 1", "setsr 1", "setctx 1 0", "setstate 1", "settle", "setstate 3", "setstate 2", "settle", "exit old ctx", "settle", "exit old err 1", "quiesce", "getstate"},
+			{"cfg state 0 0 0 s 4 2", "setsr 1", "setctx 1 0", "setstate 1", "settle", "setstate 1", "setstate 3", "settle", "exit old ctx", "settle", "swap 3", "swap 2", "settle", "exit old ctx", "quiesce", "setstate 0", "exit old ctx", "quiesce"},
+			{"cfg state 0 1 1 ds 4 3", "setsr 2", "setctx 1 0", "setstate 2", "settle", "setstate 2", "exit old err 1", "advance", "setstate 4", "settle", "exit old ctx", "settle", "exit old ok", "quiesce"},
 			// a failed state routine waiting for its retry is replaced by a new state / a new function
 			{"cfg state 1 1 0 ds 20", "setsr 1", "setctx 1 0", "setstate 1", "settle", "exit old err 2", "settle", "setstate 2", "advance", "probe", "quiesce", "clearctx", "settle", "probe", "quiesce", "exit old ctx", "exit old ctx", "quiesce"},
 			{"cfg state 0 1 1 dds 20", "setctx 1 0", "setstate 1", "setsr 1", "settle", "exit old err 1", "settle", "setsr 2", "advance", "probe", "quiesce", "exit old err 3", "settle", "swap 3", "advance", "probe", "quiesce", "exit old ctx", "exit old ok", "quiesce"},
